@@ -220,11 +220,11 @@ func c04Weights(c *ctx) {
 		for j := range slots {
 			w := eff[j]
 			real := r0.Targets[j].Weight
-			// floating point residue (e.g. ten fixed weights of 0.1) may make one of the two computations
-			// land on exactly 0 and the other on ~1e-17: nothing is demanded then
-			if (w < 1e-12) != (real < 1e-12) || (w > 0 && w < 1e-12) {
-				c.R.Count("float_residue_weights_skipped", 1)
-				continue
+			// fixed weights that add up to 100% on paper (0.7+0.2+0.1, ten times 0.1) leave nothing for the dynamic targets:
+			// the floating-point residue of the sum is not a share
+			if w == 0 && real > 0 {
+				c.R.Violate("c04:residue-weight", fmt.Sprintf("target %d: the fixed weights use up 100%%, yet this dynamic target has effective weight %g and %d slot(s)", j, real, slots[j]), in)
+				return
 			}
 			switch {
 			case w == 0 && slots[j] != 0:
